@@ -74,6 +74,13 @@ CHECKS["C07"] = dict(
     note="Documents the property leaves open get only the weak invariant (never a profile other than a declared one or the default).",
     ref="DESIGN.md §4 C07")
 
+CHECKS["C17"] = dict(
+    engine="W-CONC",
+    technique=TECH + "real goroutines released one at a time by a seeded turn scheduler at yield points woven before every library statement; race detector on the race-instrumented library (scheduler invisible to it) + equality with a sequential run + shared-object observation; recorded schedules replayed and minimised",
+    text="Seeded exploration of schedules: 2..64 client goroutines run read-side operations on private objects and, read-only, on shared claims-sets and shared decoded Evidence; at each of ~990 yield points woven into the two library packages the PRNG (or the recorded schedule) names the task that runs next (statement-granular, 1/4, 1/32 switch probability, or PCT with 1..3 change points). Oracles: any race-detector report with a non-simulator frame; every operation's result equals the sequential run's; shared objects look like identically built untouched ones afterwards. A failing run's schedule is recorded as a run-length list, replayed in a fresh process and minimised (fewer operations, then fewer context switches).",
+    note="Interleaving granularity is the library statement; calls into dependencies are atomic steps. GOMAXPROCS=1 + asyncpreemptoff so that the choice of who runs is the simulator's alone. The race detector's bounded per-word history is mitigated by short runs; the equality oracle does not depend on it.",
+    ref="DESIGN.md §4 C17")
+
 NA = {
     "C01": "pure predicate of one claims-set: no history, fault, schedule or seam can change the verdict; deciding it needs an independent model over a value-class product space (input enumeration), which is not this technique",
     "C04": "CBOR acceptance/fidelity is a pure function of the input bytes, decided by an independent encoder over value classes; nothing for a scheduler or fault injector to own",
@@ -86,7 +93,7 @@ NA = {
     "C20": "envelope acceptance is a pure function of the input bytes, decided by enumerating envelope shapes with an independent encoder",
 }
 
-PENDING = {k: "claimed in DESIGN.md; its check is still under construction in this session and is therefore not registered yet" for k in ["C17"]}
+PENDING = {}
 
 def main():
     checks = []
